@@ -201,3 +201,12 @@ pub fn par_run(
 	});
 	(total.into_inner().unwrap(), done.load(Ordering::Relaxed))
 }
+
+/// stable signature of a World violation: `prop:rule` or `prop:rule:route` when the detail
+/// starts with `route=<route>|`
+pub fn sig_of(v: &crate::world::Violation) -> String {
+	match v.detail.strip_prefix("route=").and_then(|d| d.split('|').next()) {
+		Some(route) if !route.is_empty() => format!("{}:{}:{}", v.prop, v.rule, route),
+		_ => format!("{}:{}", v.prop, v.rule),
+	}
+}
